@@ -824,6 +824,24 @@ impl FromStr for FormatSpec {
     }
 }
 
+/// CPython's `get_integer`: the value of an all-digit text, `None` for any other text, and an error
+/// ("Too many decimal digits in format string") as soon as the digits read exceed `isize::MAX`.
+fn parse_index(text: &str) -> Result<Option<usize>, FormatParseError> {
+    let mut value: usize = 0;
+    for ch in text.chars() {
+        let digit = match ch.to_digit(10) {
+            Some(digit) => digit as usize,
+            None => return Ok(None),
+        };
+        value = value
+            .checked_mul(10)
+            .and_then(|value| value.checked_add(digit))
+            .filter(|value| *value <= isize::MAX as usize)
+            .ok_or(FormatParseError::InvalidFormatSpecifier)?;
+    }
+    Ok(if text.is_empty() { None } else { Some(value) })
+}
+
 #[derive(Debug, PartialEq)]
 pub enum FieldNamePart {
     Attribute(String),
@@ -855,7 +873,7 @@ impl FieldNamePart {
                         if ch == ']' {
                             return if index.is_empty() {
                                 Err(FormatParseError::EmptyAttribute)
-                            } else if let Ok(index) = index.parse::<usize>() {
+                            } else if let Some(index) = parse_index(&index)? {
                                 Ok(FieldNamePart::Index(index))
                             } else {
                                 Ok(FieldNamePart::StringIndex(index))
@@ -894,7 +912,7 @@ impl FieldName {
 
         let field_type = if first.is_empty() {
             FieldType::Auto
-        } else if let Ok(index) = first.parse::<usize>() {
+        } else if let Some(index) = parse_index(&first)? {
             FieldType::Index(index)
         } else {
             FieldType::Keyword(first)
